@@ -182,7 +182,7 @@ def shards(tier):
             nchunks = 4 if fam[0].startswith("chain") else N_CHUNKS
             for chunk in range(nchunks):
                 out.append(["rotation", L, fam[0], chunk, nchunks, tier])
-    for fam in ("mixed", "cond-a-not-b", "cond-cds-a-and-b", "extenders"):
+    for fam in ("mixed", "cond-a-not-b", "cond-cds-a-and-b", "extenders", "superiors"):
         for chunk in range(8):
             out.append(["rotation-intron", 24, fam, chunk, 8, tier])
     for fam in ("extenders", "mixed", "cutoff0"):
